@@ -183,6 +183,39 @@ func sliceString(h *avc.SliceHeader) string {
 	return fmt.Sprintf("%x,%x,%x,%x,%x,%x", uint64(h.SliceType), h.FrameNum, h.Size, h.NumRefIdxL0ActiveMinus1, h.NumRefIdxL1ActiveMinus1, h.PicParamID)
 }
 
+// hevcPicTimingCtx renders, for every reference HEVC SPS, what hevc.ParseSEINalu derives from it for
+// sei.DecodePicTimingHevcSEI (hevc/sei.go fillHEVCPicTimingParams): "-" when the SPS has no VUI, otherwise
+// flags:au:dpb:du:inc (flags = bit0 FrameFieldInfoPresent, bit1 CpbDpbDelaysPresent, bit2 SubPicHrdParamsPresent,
+// bit3 SubPicCpbParamsInPicTimingSei).
+func hevcPicTimingCtx() string {
+	var out []string
+	for _, s := range contextSets().hevSPSl {
+		if s.VUI == nil {
+			out = append(out, "-")
+			continue
+		}
+		flags, la, lb, lc, ld := 0, 0, 0, 0, 0
+		if s.VUI.FrameFieldInfoPresentFlag {
+			flags |= 1
+		}
+		if h := s.VUI.HrdParameters; h != nil {
+			if h.CpbDpbDelaysPresentFlag() {
+				flags |= 2
+			}
+			if h.SubPicHrdParamsPresentFlag {
+				flags |= 4
+			}
+			if h.SubPicCpbParamsInPicTimingSeiFlag {
+				flags |= 8
+			}
+			la, lb = int(h.AuCpbRemovalDelayLengthMinus1), int(h.DpbOutputDelayLengthMinus1)
+			lc, ld = int(h.DpbOutputDelayDuLengthMinus1), int(h.DuCpbRemovalDelayIncrementLengthMinus1)
+		}
+		out = append(out, fmt.Sprintf("%d:%d:%d:%d:%d", flags, la, lb, lc, ld))
+	}
+	return strings.Join(out, ",")
+}
+
 func bitOf(arg, k int) bool { return arg>>uint(k)&1 == 1 }
 
 func init() {
@@ -258,7 +291,7 @@ func init() {
 			}
 			msgs, err := avc.ParseSEINalu(in, sps)
 			sink = useMsgs(msgs)
-			return errClass(err), nil
+			return errClass(err), func() string { return fmt.Sprint(len(msgs)) }
 		}},
 		target{"avc.DecodeAVCDecConfRec", false, func(in []byte, arg int) (string, func() string) {
 			r, err := avc.DecodeAVCDecConfRec(in)
@@ -341,7 +374,7 @@ func init() {
 			}
 			msgs, err := hevc.ParseSEINalu(in, sps)
 			sink = useMsgs(msgs)
-			return errClass(err), nil
+			return errClass(err), func() string { return fmt.Sprint(len(msgs)) }
 		}},
 		target{"hevc.DecodeHEVCDecConfRec", false, func(in []byte, arg int) (string, func() string) {
 			r, err := hevc.DecodeHEVCDecConfRec(in)
